@@ -28,7 +28,14 @@ EXPLANATION = (
     'R3 mintro and the backend agree on the target output directory for both layouts; R5 a path-like build definition file is recorded only '
     'after the build-directory test, which precedes the source-directory test (the build dir may be nested in the source dir); R4 introspection is generated only after '
     'backend.generate returned, for the same build/backend pair. '
-    'Does NOT decide equality of the two generated artefacts for a concrete project (run-time values).')
+    'R1h every per-source builder whose object generate_target links records its source; R2e every target class recorded as a test dependency '
+    '(incl. the program behind a LocalProgram) is built by the test prerequisite statement; R1d also covers the option-object value paths of the resolver '
+    '(yielding options). All rules read a source-to-source normal form (small helpers inlined, conditional expressions/filter()/dict comprehensions desugared, '
+    'calls bound by signature) and report only on positive evidence or in a closed world. '
+    'Does NOT decide: equality of the two generated artefacts for a concrete project (run-time values); uniqueness of the source-path keys of '
+    'intro-install_plan/intro-installed (several install_data() of one file collapse - documented format); whether two path expressions name the same '
+    'file (fs.read registering a relative name); value semantics of join_paths (install_dir_name text); env.unset() as seen by mtest; build files of a '
+    'failed optional subproject.')
 ASSUMPTIONS = ['pickle round-trips TestSerialisation/InstallData unchanged',
                'Target.get_target() returns the target itself (CustomTargetIndex: its parent)',
                'a run target has no output file: its dummy directory is outside R3']
